@@ -345,3 +345,211 @@ def run_batch(reqs, nproc=None, timeout=120, hook=None, libs=None):
     for r in common.pmap(runslice, slices, workers=nproc):
         allres.update(r)
     return allres
+
+# ------------------------------------------------------------------------------------------------ translator -> gen/Gen_C13.v
+
+class PortOutdated(Exception):
+    pass
+
+FIXED_PATTERNS = [(r"\s+", "skipHandler"), (r"//[^\n\r]*", "commentHandler"), (r"(?s)/\*.*?\*/", "commentHandler"),
+                  (r'"[^"]*"', "stringHandler"), (r"'(?:\\x[0-9a-fA-F]{2}|\\.|[\x00-\x7F])'", "byteHandler"),
+                  ("numeric.NumberPattern", "numberHandler"), (r"[a-zA-Z_][a-zA-Z0-9_]*", "identifierHandler")]
+NUMBER_PATTERN = (r"-?(?:0[xX][0-9a-fA-F](?:[0-9a-fA-F]|_[0-9a-fA-F])*|0[oO][0-7](?:[0-7]|_[0-7])*|0[bB][01](?:[01]|_[01])*|"
+                  r"[0-9](?:[0-9]|_[0-9])*(?:\.[0-9](?:[0-9]|_[0-9])*)?(?:[eE][+-]?[0-9](?:[0-9]|_[0-9])*)?)")
+
+def _go_consts(text, typ=None):
+    """NAME [TYPE] = "value" | `value` | TOKEN(pkg.NAME) | concatenations of raw strings and names."""
+    out = {}
+    for m in re.finditer(r"^\s*([A-Za-z_]\w*)(?:\s+[A-Za-z_][\w.]*)?\s*=\s*(.+?)\s*(?://.*)?$", text, re.M):
+        out[m.group(1)] = m.group(2).strip()
+    return out
+
+def _eval_concat(expr, consts, depth=0):
+    if depth > 20:
+        raise PortOutdated("constant recursion")
+    parts = [p.strip() for p in re.split(r"\s\+\s", expr)]
+    val = ""
+    for p in parts:
+        if (p.startswith("`") and p.endswith("`")) or (p.startswith('"') and p.endswith('"') and "\\" not in p):
+            val += p[1:-1]
+        elif p in consts:
+            val += _eval_concat(consts[p], consts, depth + 1)
+        else:
+            raise PortOutdated("cannot evaluate constant expression %r" % p)
+    return val
+
+def _regex_literal(src):
+    """literal byte string a `defaultHandler` regular expression stands for; fail closed on any metacharacter."""
+    out = bytearray(); i = 0
+    while i < len(src):
+        c = src[i]
+        if c == "\\":
+            if i + 1 >= len(src) or src[i + 1].isalnum():
+                raise PortOutdated("operator pattern %r is not a literal" % src)
+            out += src[i + 1].encode(); i += 2
+        elif c in ".^$*+?()[]{}|":
+            # Go accepts a few of these unescaped as literals ( ] } ) but the table escapes them; be strict
+            if c in "]}" :
+                out += c.encode(); i += 1
+            else:
+                raise PortOutdated("operator pattern %r is not a literal" % src)
+        else:
+            out += c.encode(); i += 1
+    return bytes(out)
+
+def scan_lexer_tables(repo):
+    tz = open(os.path.join(repo, "internal/frontend/lexer/tokenizer.go")).read()
+    tz = re.sub(r"^\s*//.*$", "", tz, flags=re.M)        # commented-out table entries
+    tk = open(os.path.join(repo, "internal/tokens/tokens.go")).read()
+    ty = open(os.path.join(repo, "internal/types/builtins.go")).read()
+    nm = open(os.path.join(repo, "internal/utils/numeric/numeric.go")).read()
+    ents = re.findall(r"\{\s*regexp\.MustCompile\(\s*(`[^`]*`|\"(?:[^\"\\]|\\.)*\"|[A-Za-z_][\w.]*)\s*\)\s*,\s*([A-Za-z_]\w*(?:\([\w.]+\))?)\s*\}", tz)
+    if len(ents) < 8:
+        raise PortOutdated("pattern table of tokenizer.go not found (%d entries)" % len(ents))
+    def unq(x):
+        if x[0] == "`": return x[1:-1]
+        if x[0] == '"': return json.loads(x)
+        return x
+    ents = [(unq(a), b) for a, b in ents]
+    for i, (rx, h) in enumerate(FIXED_PATTERNS):
+        if ents[i] != (rx, h):
+            raise PortOutdated("pattern #%d of tokenizer.go is %r, the port was written for %r" % (i, ents[i], (rx, h)))
+    nconsts = _go_consts(nm)
+    if _eval_concat(nconsts.get("NumberPattern", "?"), nconsts) != NUMBER_PATTERN:
+        raise PortOutdated("numeric.NumberPattern changed: %r" % _eval_concat(nconsts.get("NumberPattern", "?"), nconsts))
+    tconsts = _go_consts(tk)
+    yconsts = _go_consts(ty)
+    def tokval(name):
+        v = tconsts.get(name)
+        if v is None:
+            raise PortOutdated("token constant %s not found" % name)
+        m = re.fullmatch(r"TOKEN\(types\.(\w+)\)", v)
+        if m:
+            v = yconsts.get(m.group(1))
+            if v is None:
+                raise PortOutdated("types.%s not found" % m.group(1))
+        if not (v.startswith('"') and v.endswith('"')):
+            raise PortOutdated("token constant %s = %s is not a string literal" % (name, v))
+        return json.loads(v).encode()
+    ops = []
+    for rx, h in ents[len(FIXED_PATTERNS):]:
+        m = re.fullmatch(r"defaultHandler\(tokens\.(\w+)\)", h)
+        if not m:
+            raise PortOutdated("unexpected handler %s after the fixed patterns" % h)
+        ops.append((_regex_literal(rx), tokval(m.group(1))))
+    km = re.search(r"keyWordsMap[^{]*\{(.*?)\n\}", tk, re.S)
+    if not km:
+        raise PortOutdated("keyWordsMap not found")
+    kws = [tokval(n) for n in re.findall(r"^\s*(\w+)\s*:\s*true", km.group(1), re.M)]
+    # the handlers / main loop themselves: the port is tied to them by the correspondence check, not by text
+    return ops, kws
+
+def _func_body(text, header_re):
+    m = re.search(header_re, text)
+    if not m:
+        return None
+    i = text.index("{", m.end() - 1) if text[m.end() - 1] != "{" else m.end() - 1
+    depth = 0
+    for j in range(i, len(text)):
+        if text[j] == "{": depth += 1
+        elif text[j] == "}":
+            depth -= 1
+            if depth == 0:
+                return text[i + 1:j]
+    return None
+
+def _dominating(body, pos):
+    """text of the statements that dominate position pos (closed sibling blocks skipped)."""
+    out = []; depth = 0
+    for k in range(pos - 1, -1, -1):
+        c = body[k]
+        if c == "}":
+            depth += 1
+        elif c == "{":
+            if depth > 0:
+                depth -= 1
+        elif depth == 0:
+            out.append(c)
+    return "".join(reversed(out))
+
+def scan_exit_sites(repo):
+    cg = open(os.path.join(repo, "internal/compiler/compiler.go")).read()
+    mg = open(os.path.join(repo, "main.go")).read()
+    bg = open(os.path.join(repo, "internal/diagnostics/bag.go")).read()
+    cx = open(os.path.join(repo, "internal/context_v2/context.go")).read()
+    body = _func_body(cg, r"func Compile\(opts \*Options\) Result \{")
+    if body is None:
+        raise PortOutdated("func Compile not found")
+    run_pos = body.find("p.Run()")
+    if run_pos < 0:
+        raise PortOutdated("p.Run() not found in Compile")
+    run_checked = bool(re.search(r"if\s+err\s*:=\s*p\.Run\(\)\s*;\s*err\s*!=\s*nil[^{]*\{[^}]*ReportError\(", body))
+    sites = []
+    for m in re.finditer(r"return\s+Result\{([^}]*)\}", body):
+        lit = m.group(1)
+        sm = re.search(r"Success:\s*([^,}]+)", lit)
+        expr = sm.group(1).strip() if sm else "<zero>"
+        se = {"false": "SFalse", "<zero>": "SFalse", "!ctx.HasErrors()": "SNotHasErrors"}.get(expr, "SOther")
+        dom = _dominating(body, m.start())
+        sites.append(dict(expr=se, text=expr, reports="ReportError(" in dom.split("ctx := ")[-1] and "ctx := " in dom,
+                          emits=bool(re.search(r"EmitDiagnostics\(\)|EmitAllToString\(\)", dom)),
+                          output=bool(re.search(r'Output:\s*(fmt\.Sprintf\(\s*"[^"]+"|"[^"]+")', lit)),
+                          pipeline=m.start() > run_pos, line=cg[:cg.index(body)].count("\n") + body[:m.start()].count("\n") + 1))
+    if not sites:
+        raise PortOutdated("no return sites in Compile")
+    mb = _func_body(mg, r"func main\(\) \{")
+    cpos = mb.find("compiler.Compile(") if mb else -1
+    if cpos < 0:
+        raise PortOutdated("compiler.Compile call not found in main.go")
+    after = mb[cpos:]
+    fm = re.search(r"if\s+!result\.Success\s*\{([^}]*)\}", after)
+    fail_exit = 0
+    if fm:
+        em = re.search(r"os\.Exit\((\d+)\)", fm.group(1))
+        fail_exit = int(em.group(1)) if em else 0
+    other_exits = len(re.findall(r"os\.Exit\(", after)) - (1 if fm and "os.Exit(" in fm.group(1) else 0)
+    prints_output = bool(fm and "result.Output" in fm.group(1))
+    add = _func_body(bg, r"func \(db \*DiagnosticBag\) Add\(diag \*Diagnostic\) \{") or ""
+    has = _func_body(bg, r"func \(db \*DiagnosticBag\) HasErrors\(\) bool \{") or ""
+    chas = _func_body(cx, r"func \(ctx \*CompilerContext\) HasErrors\(\) bool \{") or ""
+    glue = (bool(re.search(r"case Error:\s*db\.errorCount\+\+", add)) and len(re.findall(r"errorCount", add)) == 1 and
+            bool(re.search(r"return db\.errorCount > 0", has)) and bool(re.search(r"return ctx\.Diagnostics\.HasErrors\(\)", chas)) and
+            bool(re.search(r"Severity:\s*diagnostics\.Error", _func_body(cx, r"func \(ctx \*CompilerContext\) ReportError\([^)]*\) \{") or "")))
+    return dict(sites=sites, run_checked=run_checked, fail_exit=fail_exit, other_exits=other_exits,
+                prints_output=prints_output, glue=glue)
+
+def gen_coq(repo=None):
+    repo = repo or common.REPO
+    ops, kws = scan_lexer_tables(repo)
+    ex = scan_exit_sites(repo)
+    b = lambda x: common.coq_bytes(x) if x else "(@nil Z)"
+    v = ["(* generated by harness/c13.py from the working tree — do not edit *)",
+         "From Coq Require Import ZArith List.", "From FV Require Import Models.LexerTot Models.ExitStatus.",
+         "Import ListNotations.", "Open Scope Z_scope.",
+         "Definition lex_ops : list (bytes * bytes) := ["]
+    v.append(";\n".join("  (%s, %s)" % (b(l), b(t)) for l, t in ops))
+    v.append("].")
+    v.append("Definition lex_keywords : list bytes := [")
+    v.append(";\n".join("  %s" % b(k) for k in kws))
+    v.append("].")
+    v.append("Definition compile_sites : list site := [")
+    v.append(";\n".join("  mkSite %s %s %s %s %s" % (s["expr"], common.coq_bool(s["reports"]), common.coq_bool(s["emits"]),
+                                                  common.coq_bool(s["output"] and ex["prints_output"]), common.coq_bool(s["pipeline"]))
+                        for s in ex["sites"]))
+    v.append("].")
+    v.append("Definition compile_run_checked : bool := %s." % common.coq_bool(ex["run_checked"]))
+    v.append("Definition main_fail_exit : Z := %d." % ex["fail_exit"])
+    v.append("Definition main_other_exits_after_compile : Z := %d." % ex["other_exits"])
+    v.append("Definition bag_glue_as_ported : bool := %s." % common.coq_bool(ex["glue"]))
+    content = "\n".join(v) + "\n"
+    os.makedirs(common.GEN, exist_ok=True)
+    path = os.path.join(common.GEN, "Gen_C13.v")
+    if not os.path.exists(path) or open(path).read() != content:
+        open(path, "w").write(content)
+    return ops, kws, ex
+
+def setup():
+    try:
+        gen_coq()
+    except PortOutdated as e:
+        print("C13 setup: translator failed:", e)
